@@ -3051,6 +3051,8 @@ pub fn c02_noise_stream(nd: &mut Nondet) {
     };
     let total = first + second;
     let data = nd.pattern(total);
+    let finish_with_close = nd.bool("finish_with_close");
+    let mut writer_closed = false;
     let waker = noop_waker();
     let mut cx = Context::from_waker(&waker);
     let mut written = 0usize;
@@ -3068,6 +3070,16 @@ pub fn c02_noise_stream(nd: &mut Nondet) {
                 Poll::Ready(Ok(n)) => { check("c02.write-accepts-at-most-what-was-offered", n >= 1 && n <= end - written); written += n; }
                 Poll::Ready(Err(_)) => { check("c02.write-on-a-healthy-carrier-succeeds", false); return; }
                 Poll::Pending => { cover("c02.write-pending"); }
+            }
+        } else if finish_with_close {
+            // the application is done: it closes its end. A close that reports success has handed everything to the carrier
+            // (the reader below must still get every byte - the loop only ends when it has)
+            if !writer_closed {
+                match futures::io::AsyncWrite::poll_close(Pin::new(&mut writer), &mut cx) {
+                    Poll::Ready(Ok(())) => { writer_closed = true; cover("c02.closed"); }
+                    Poll::Ready(Err(_)) => { check("c02.close-on-a-healthy-carrier-succeeds", false); return; }
+                    Poll::Pending => { cover("c02.close-pending"); }
+                }
             }
         } else {
             match futures::io::AsyncWrite::poll_flush(Pin::new(&mut writer), &mut cx) {
